@@ -10,6 +10,7 @@
 
 #if !(defined(__COMPCERT__) && defined(GPC_IMPLEMENTATION))
 extern inline void gp_arr_delete(GPArray(void));
+extern inline void gp_arr_ptr_delete(void*);
 #endif
 
 size_t gp_arr_length(const void* arr)
